@@ -268,6 +268,57 @@ def seeded_agreement(cfg, p):
                 p.observe(("seeded", cfg, seed, i, tuple(yj.tolist())))
 
 
+def class_count_change(p):
+    """The wrapped dataset's class count changes while the mix wrapper lives (a random-class wrapper below is reconfigured,
+    a dataset gets labels added): every later sample must be encoded over the classes the dataset has THEN."""
+    import torch
+    from kappadata.datasets.kd_dataset import KDDataset
+    from kappadata.wrappers.sample_wrappers.kd_mix_wrapper import KDMixWrapper
+    from kappadata.wrappers.mode_wrapper import ModeWrapper
+
+    class DS(KDDataset):
+        nc = 3
+
+        def __len__(self):
+            return 5
+
+        def getitem_x(self, idx, ctx=None):
+            return torch.full((2,), float(idx) + 1.0)
+
+        def getitem_class(self, idx, ctx=None):
+            return int(idx) % self.nc
+
+        def getshape_class(self):
+            return (self.nc,)
+
+    for c0, c1 in ((6, 3), (3, 6), (4, 2), (2, 5)):
+        for prob in (1.0, 0.4):
+            for seed in (0, 3):
+                ds = DS()
+                ds.nc = c0
+                mw = ModeWrapper(KDMixWrapper(ds, mixup_p=prob, mixup_alpha=1.0, seed=seed), mode="x class")
+                case = dict(class_count_change=True, before=c0, after=c1, p=prob, seed=seed)
+                p.evaluations += 1
+                try:
+                    mw[0]
+                    ds.nc = c1
+                    got = [mw[i] for i in range(5)]
+                    ds2 = DS()
+                    ds2.nc = c1
+                    ref = [ModeWrapper(KDMixWrapper(ds2, mixup_p=prob, mixup_alpha=1.0, seed=seed), mode="x class")[i] for i in range(5)]
+                except Exception as e:
+                    p.violation(f"C11:class_count_change:exception:{type(e).__name__}", case, f"{case}: {e!r}")
+                    continue
+                bad = [i for i in range(5) if tuple(got[i][1].shape) != (c1,) or not torch.equal(got[i][1], ref[i][1])
+                       or not torch.equal(got[i][0], ref[i][0])]
+                if bad:
+                    p.violation("C11:class_count_change:samples_encoded_over_a_stale_class_count", case,
+                                f"{case}: sample {bad[0]} label {got[bad[0]][1].tolist()}, a wrapper built after the change gives "
+                                f"{ref[bad[0]][1].tolist()}")
+                else:
+                    p.observe(("class_count_change", c0, c1, prob, seed))
+
+
 def all_cfgs(tier):
     out = []
     for n in (1, 2, 3, 4):
@@ -327,6 +378,7 @@ def task(args):
     p = Partial()
     if cfgs == "one_hot":
         one_hot_utils(p)
+        class_count_change(p)
         return p
     for cfg in cfgs:
         n = cfg[0]
@@ -374,6 +426,10 @@ def run(run):
 
 
 def replay(case):
+    if case.get("class_count_change"):
+        p = Partial()
+        class_count_change(p)
+        return None if not p.violations else "; ".join(m for _, m in p.violations.values())
     cfg = tuple(case["cfg"])
     if case.get("one_hot"):
         p = Partial()
